@@ -24,9 +24,22 @@ pub(super) enum Class {
 
 const TAG_LABEL: u64 = 0x0a;
 
+/// Further tags that only make sense as part of their parent ("and the like" in the property):
+/// unspecified_parameters, variant, inheritance, inlined_subroutine, catch_block, enumerator,
+/// friend, template_type_parameter, template_value_parameter, thrown_type, try_block,
+/// variant_part, call_site, call_site_parameter.
+pub(super) const MORE_MEMBER_LIKE: [u64; 14] = [0x18, 0x19, 0x1c, 0x1d, 0x25, 0x28, 0x2a, 0x2f, 0x30, 0x31, 0x32, 0x33, 0x48, 0x49];
+
 /// (tag, is_declaration) for class `c` at entry number `k` (rotates through the class's tags
 /// so that all ten tags of the property's quantifier occur).
 pub(super) fn tag_for(c: Class, k: usize, rot: usize) -> (u64, bool) {
+    // rot >= 100 selects one of the further member-like tags for every class M entry
+    if rot >= 100 {
+        if c == Class::M {
+            return (MORE_MEMBER_LIKE[(rot - 100) % MORE_MEMBER_LIKE.len()], false);
+        }
+        return tag_for(c, k, rot - 100);
+    }
     let k = k + rot;
     match c {
         Class::N => (TAG_NAMESPACE, false),
@@ -63,6 +76,8 @@ pub(super) enum Carrier {
     LocListEmptyRange,
     LocListTombstone,
     LocListSecondEntry,
+    /// one location list (one offset) shared by the source and by every other entry of its unit
+    LocListShared,
     /// DW_FORM_ref_addr / DW_OP_call_ref to the ROOT entry of the other unit (dwz-style
     /// DW_AT_import of a partial unit): the target unit may have nothing else retained
     AttrRefAddrOtherUnitRoot,
@@ -74,7 +89,7 @@ pub(super) enum Carrier {
     /// entry of the NEXT unit (an invalid reference: it designates no entry of its own unit)
     OutOfBoundsIntoNextUnit,
 }
-const MORE_CARRIERS: [Carrier; 15] = [
+const MORE_CARRIERS: [Carrier; 16] = [
     Carrier::SiblingAttr,
     Carrier::OutOfBoundsIntoNextUnit,
     Carrier::AttrRefAddrOtherUnitRoot,
@@ -90,6 +105,7 @@ const MORE_CARRIERS: [Carrier; 15] = [
     Carrier::LocListEmptyRange,
     Carrier::LocListTombstone,
     Carrier::LocListSecondEntry,
+    Carrier::LocListShared,
 ];
 fn is_more(c: Carrier) -> bool {
     MORE_CARRIERS.contains(&c)
@@ -258,6 +274,20 @@ pub(super) fn build_case(c: &mut Case) -> Option<Model> {
                 }
                 loclist(&mut units, su, sd, vec![Op::Call4(tgt(dd, su))]);
                 c.edges.push((src, dst));
+            }
+            Carrier::LocListShared => {
+                if src == 0 {
+                    return None;
+                }
+                loclist(&mut units, su, sd, vec![Op::CallRef(tgt(dd, su))]);
+                c.edges.push((src, dst));
+                let idx = units[su].loclists.len() - 1;
+                for k in 1..=c.n {
+                    if k != src && c.unit_of[k] == su {
+                        units[su].dies[loc[k].1].attrs.push(at(at_loc, AV::Locs(secoff, idx)));
+                        c.edges.push((k, dst));
+                    }
+                }
             }
             Carrier::OutOfBoundsIntoNextUnit => {
                 if c.nunits != 2 || src == 0 || dst == 0 || c.unit_of[src] != 0 || c.unit_of[dst] != 1 {
@@ -628,7 +658,7 @@ pub(super) fn check_with(ctx: &mut Ctx, c: &Case, be: &Backend) {
             } else if c.edges.iter().any(|&(s, d)| d == m && lower & (1 << s) != 0) {
                 match c.carrier {
                     Carrier::AttrRef4 | Carrier::AttrRefAddr | Carrier::CycleRef4 => "referenced-by-attribute",
-                    Carrier::LocListCallRef | Carrier::LocListCall4 => "referenced-from-location-list",
+                    Carrier::LocListCallRef | Carrier::LocListCall4 | Carrier::LocListShared => "referenced-from-location-list",
                     _ => "referenced-from-expression-or-attribute",
                 }
             } else {
@@ -696,19 +726,38 @@ fn sub_n(tier: Tier, n: usize, alphabet: &'static [Class], carriers: &'static [C
 }
 
 fn sub_named(name: &str, tier: Tier, n: usize, alphabet: &'static [Class], carriers: &'static [Carrier], cfgs: Vec<Cfg>, max_split: u64, routes: &'static [bool], only_pair: Option<(usize, usize)>) -> Sub {
+    sub_named_rots(name, tier, n, alphabet, carriers, cfgs, max_split, routes, only_pair, None)
+}
+
+/// `rots`: explicit list of tag rotations (values >= 100 select a tag of MORE_MEMBER_LIKE for
+/// the class M entries) instead of the default rotation dimension.
+#[allow(clippy::too_many_arguments)]
+fn sub_named_rots(name: &str, tier: Tier, n: usize, alphabet: &'static [Class], carriers: &'static [Carrier], cfgs: Vec<Cfg>, max_split: u64, routes: &'static [bool], only_pair: Option<(usize, usize)>, rots: Option<Vec<usize>>) -> Sub {
     let shapes = space::forests(n);
     let nclass = class_assignments(n, alphabet);
     // unit split: 0 = one unit; t >= 1 = top-level trees from the t-th on go to a second unit
     let pairs = if only_pair.is_some() { 1 } else { ((n + 1) * (n + 1)) as u64 };
     let full_rot = n <= tier.pick(2, 3);
-    let nrot: u64 = if full_rot { 5 } else { 1 };
+    let nrot: u64 = match &rots {
+        Some(r) => r.len() as u64,
+        None => {
+            if full_rot {
+                5
+            } else {
+                1
+            }
+        }
+    };
     let len = shapes.len() as u64 * nclass * (max_split + 1) * carriers.len() as u64 * pairs * routes.len() as u64 * cfgs.len() as u64 * nrot;
     let bound = format!(
         "every forest with exactly {} non-root entries ({} shapes) x every assignment of tag classes {:?} (tags rotate through namespace / structure_type, base_type, subprogram definition, typedef / member, formal_parameter, variable, lexical_block, subprogram declaration / label; {}) x unit split in 0..={} (0 = one unit, t = top-level trees from the t-th on in a second unit) x carrier kind in {:?} x {} x routes (stepwise?) {:?} x {} configs; inside each case EVERY subset of required entries (2^{})",
         n,
         shapes.len(),
         alphabet,
-        if full_rot { "x all 5 rotations of the tag lists" } else { "rotation derived from the other dimensions" },
+        match &rots {
+            Some(r) => format!("x every class M entry carrying, in turn, each of the {} further member-like tags {:x?}", r.len(), MORE_MEMBER_LIKE),
+            None => (if full_rot { "x all 5 rotations of the tag lists" } else { "rotation derived from the other dimensions" }).to_string(),
+        },
         max_split,
         carriers,
         match only_pair { Some(p) => format!("the (source, target) pair {:?}", p), None => "every (source, target) pair incl. the root of unit 0 as source and the source's unit root as target".to_string() },
@@ -730,7 +779,16 @@ fn sub_named(name: &str, tier: Tier, n: usize, alphabet: &'static [Class], carri
         let cfg = *x.pick(&cfgs);
         // n <= 3: every rotation of the tag lists is a dimension; larger n: the rotation is derived from
         // the other digits (every tag still occurs at every position, not in full product)
-        let rot = if nrot > 1 { rot_digit } else { (cl as usize + shape_idx + pair + split) % 5 };
+        let rot = match &rots {
+            Some(r) => r[rot_digit],
+            None => {
+                if nrot > 1 {
+                    rot_digit
+                } else {
+                    (cl as usize + shape_idx + pair + split) % 5
+                }
+            }
+        };
         let mut class = vec![Class::N; n + 1];
         for k in 1..=n {
             class[k] = alphabet[(cl % alphabet.len() as u64) as usize];
@@ -825,6 +883,7 @@ pub fn def(tier: Tier) -> CheckDef {
     const BOTH: [bool; 2] = [false, true];
     const ONE: [bool; 1] = [false];
     const NOREF: [Carrier; 1] = [Carrier::None];
+    const TAG_CARRIERS: [Carrier; 2] = [Carrier::None, Carrier::AttrRef4];
     const N5_CARRIERS: [Carrier; 3] = [Carrier::AttrRef4, Carrier::ExprCallRef, Carrier::LocListCallRef];
     match tier {
         Tier::Quick => {
@@ -834,8 +893,11 @@ pub fn def(tier: Tier) -> CheckDef {
             subs.push(sub_n(tier, 4, &ALPHA3, &CORE_CARRIERS, vec![c4], 4, &ONE, None));
             subs.push(sub_named("filter-more-carriers-n1", tier, 1, &ALPHA3, &MORE_CARRIERS, vec![c3, c4, c5], 1, &BOTH, None));
             subs.push(sub_named("filter-more-carriers-n2", tier, 2, &ALPHA3, &MORE_CARRIERS, vec![c3, c4, c5], 2, &BOTH, None));
+            subs.push(sub_named_rots("filter-more-member-like-tags-n2", tier, 2, &ALPHA3, &TAG_CARRIERS, vec![c4, c5], 1, &BOTH, None, Some((100..114).collect())));
         }
         Tier::Thorough => {
+            subs.push(sub_named_rots("filter-more-member-like-tags-n2", tier, 2, &ALPHA3, &TAG_CARRIERS, vec![c3, c4, c5], 1, &BOTH, None, Some((100..114).collect())));
+            subs.push(sub_named_rots("filter-more-member-like-tags-n3", tier, 3, &ALPHA3, &TAG_CARRIERS, vec![c4], 1, &ONE, None, Some((100..114).collect())));
             subs.push(sub_n(tier, 1, &ALPHA4, &CARRIERS, vec![c3, c4, c5], 1, &BOTH, None));
             subs.push(sub_n(tier, 2, &ALPHA4, &CARRIERS, vec![c3, c4, c5], 2, &BOTH, None));
             subs.push(sub_n(tier, 3, &ALPHA4, &CARRIERS, vec![c3, c4, c5], 3, &BOTH, None));
@@ -852,7 +914,7 @@ pub fn def(tier: Tier) -> CheckDef {
         level: "exploration",
         rule: "one case = (forest shape, tag-class assignment, unit split, reference carrier, source/target pair, conversion route, config); inside it every subset of required entries is converted with FilterUnitSection/convert_with_filter and written; evaluations count conversions. Distinct by construction; non-trivial = the carrier can express the pair (in-unit carriers need source and target in one unit)".into(),
         assumptions: vec![
-            "closure model (DESIGN C19): L = least set containing the required entries closed under parent (the unit root excluded), reference target (attribute, expression, location-list entry) and child-of-retained-non-namespace for member-like tags {member, formal_parameter, variable, lexical_block, subprogram declaration}; U additionally follows children with a tag the property does not categorise (DW_TAG_label); children of the unit root are never pulled in by the root; required: L subset-of output subset-of U".into(),
+            "closure model (DESIGN C19): L = least set containing the required entries closed under parent (the unit root excluded), reference target (attribute, expression, location-list entry) and child-of-retained-non-namespace for member-like tags {member, formal_parameter, variable, lexical_block, subprogram declaration; in the filter-more-member-like-tags sub-spaces also unspecified_parameters, variant, inheritance, inlined_subroutine, catch_block, enumerator, friend, template type/value parameter, thrown_type, try_block, variant_part, call_site, call_site_parameter}; U additionally follows children with a tag the property does not categorise (DW_TAG_label); children of the unit root are never pulled in by the root; required: L subset-of output subset-of U".into(),
             "entries are identified by a DW_AT_name identity tag; references are compared by the identity of their target".into(),
             "attribute equality is against the unfiltered conversion through the same route when that succeeds, otherwise (inputs with out-of-bounds / mid-entry references or expression forward references, which cannot be converted unfiltered) against the input's dump".into(),
             "an error is accepted when a retained entry (member of L) carries a reference that designates no entry, or when the unfiltered conversion of the same input fails too (writer limitation: UnsupportedExpressionForwardReference); a write error InvalidReference is never accepted".into(),
